@@ -140,8 +140,10 @@ FactorDiag(Mx, b) ==
       bl == MatOf(nv, np, LAMBDA a, j : Mx[ix[a]][ix[nv + j]])
       S == MatOf(np, np, LAMBDA i, j : Neg(DSumTo(LAMBDA a : Mul(dt[i][a], bl[a][j]), nv)))
       r == Inverse(np, S)
+  \* an empty block (block variants: the pressure dof that opens it has a structurally zero Schur complement entry, no dof
+  \* reaches the maximal degree) counts as singular like the 1 x 1 zero Schur complement of the nodal variant
   IN [st |-> IF VecExact(ainv) THEN r.st ELSE "inexact", ainv |-> ainv, dt |-> dt, bl |-> bl, sinv |-> r.a,
-      zl |-> VecExact(ainv) /\ HasZeroLine(np, S), loc |-> S]
+      zl |-> VecExact(ainv) /\ (np = 0 \/ HasZeroLine(np, S)), loc |-> S]
 Factor(Mx) == Vec(NB, LAMBDA b : IF IsFull(kind) THEN FactorFull(Mx, b) ELSE FactorDiag(Mx, b))
 
 \* local solve of block b with factorisation F for the local right-hand side r (velocity first)
@@ -190,31 +192,38 @@ AmaMatrix(F) == MatOf(NN, NN, LAMBDA i, j :
 \* the domain of a value set: 0 = outside, 1 = regular, 2 = init_numeric must throw VankaFactorError
 DomainOf(F) ==
   IF IsAma(kind) THEN
-       IF /\ \A b \in 1..NB : F[b].st = "ok" \/ (kind = "amas" /\ F[b].zl)
-          /\ \A i \in 1..NN : cnt[i] >= 1 /\ (ActiveCount(F, i) > 0 => IsExact(Div(Omega(om), D(ActiveCount(F, i)))))
-       THEN 1 ELSE 0
+       IF \A b \in 1..NB : F[b].st = "ok" \/ (kind = "amas" /\ F[b].zl) THEN 1 ELSE 0
   ELSE IF IsFull(kind) THEN (IF \A b \in 1..NB : F[b].st = "ok" THEN 1 ELSE 0)
   ELSE IF \E b \in 1..NB : ~VecExact(F[b].ainv) THEN 0
   ELSE IF \E b \in 1..NB : F[b].zl THEN 2
   ELSE IF \A b \in 1..NB : F[b].st = "ok" THEN 1 ELSE 0
 
 ZeroTab == Tab(LAMBDA cb, t : ZeroVec(NN))
+\* the conjuncts are ordered so that TLC computes the block structure and the factorisations once per system and kind and
+\* enumerates omega, the iteration count and the filters after the domain test
 Init ==
   /\ lay \in Layouts /\ n \in NVs /\ m \in NPs
   /\ PA \in (IF APat = "diag" THEN {{}} ELSE SUBSET {ij \in (1..n) \X (1..n) : ij[1] # ij[2]})
   /\ PB \in SUBSET ((1..n) \X (1..m)) /\ PD \in SUBSET ((1..m) \X (1..n))
   /\ Cardinality(PB) + Cardinality(PD) >= MinNz /\ Cardinality(PB) + Cardinality(PD) <= MaxNz
-  /\ pal \in Pals /\ kind \in Kinds /\ om \in Oms /\ iters \in Iters /\ fsel \in FiltSel
+  /\ pal \in Pals /\ kind \in Kinds
   /\ (IsAma(kind) => lay = "bcsr")
+  \* Vanka reads the row pointer arrays of D (and of B for the block variants) in init_symbolic, and asserts non-empty BCSR
+  \* matrices: D (and B) must have at least one stored entry
+  /\ (~IsAma(kind) => PD # {} /\ (PB # {} \/ (~IsBlock(kind) /\ lay # "bcsr")))
   /\ idx = Vec(Len(PSets), LAMBDA b : IdxOfP(PSets[b]))
   /\ nvs = Vec(Len(PSets), LAMBDA b : NvOfP(PSets[b]))
   /\ cnt = Vec(NN, LAMBDA i : Cardinality({b \in 1..Len(idx) : InIdx(idx[b], i)}))
   /\ (IsAdd(kind) => \A i \in 1..NN : cnt[i] \in {0, 1, 2, 4})
+  /\ (IsAma(kind) => \A i \in 1..NN : cnt[i] >= 1)           \* AmaVanka asserts that every dof lies in a macro
   /\ mats = <<MOf(1), MOf(2)>>
   /\ fac = <<Factor(mats[1]), Factor(mats[2])>>
   /\ LET d1 == DomainOf(fac[1])  d2 == DomainOf(fac[2]) IN
        /\ d1 # 0 /\ d1 = d2
        /\ pc = (IF d1 = 2 THEN "throws" ELSE "sweep")
+  /\ om \in Oms /\ iters \in Iters /\ fsel \in FiltSel
+  /\ (pc = "throws" => om = CHOOSE o \in Oms : TRUE)  /\ (pc = "throws" => iters = CHOOSE o \in Iters : TRUE) /\ (pc = "throws" => fsel = CHOOSE o \in FiltSel : TRUE)
+  /\ (IsAma(kind) => \A c \in {1, 2} : \A i \in 1..NN : ActiveCount(fac[c], i) > 0 => IsExact(Div(Omega(om), D(ActiveCount(fac[c], i)))))
   /\ ama = IF IsAma(kind) THEN <<AmaMatrix(fac[1]), AmaMatrix(fac[2])>> ELSE <<>>
   /\ tests = TestsOf
   /\ it = 1 /\ k = 1 /\ X = ZeroTab /\ Tt = ZeroTab /\ lastr = <<>>
@@ -277,7 +286,8 @@ DiagLocalLaw == pc = "sweep" /\ ~IsAdd(kind) /\ ~IsAma(kind) /\ ~IsFull(kind) /\
       IN /\ \A a \in 1..nv : Add(Mul(Mx[ix[a]][ix[a]], c[a]), DSumTo(LAMBDA j : Mul(Mx[ix[a]][ix[nv + j]], c[nv + j]), np)) = lastr[cb][t][a]
          /\ \A i \in 1..np : DSumTo(LAMBDA a : Mul(Mx[ix[nv + i]][ix[a]], c[a]), nv) = lastr[cb][t][nv + i]
 \* one block covering every dof, omega = 1, one iteration, no filter: the preconditioner is the exact inverse
-WholeSystemLaw == pc = "done" /\ IsFull(kind) /\ NB = 1 /\ Len(idx[1]) = NN /\ om = 1 /\ iters = 1 /\ fsel = "none" =>
+WholeSystemLaw == pc = "done" /\ IsFull(kind) /\ NB = 1 /\ Len(idx[1]) = NN /\ om = 1 /\ iters = 1 /\ fsel = "none"
+                  /\ fac[1][1].st = "ok" /\ fac[2][1].st = "ok" =>
    \A cb \in {1, 2} : \A t \in 1..NT : RMatVec(NN, NN, mats[cb], X[cb][t]) = tests[t]
 Linearity == pc = "done" => \A cb \in 1..NC : X[cb][NT] = RVSub(RVScale(D(2), X[cb][NT - 1]), X[cb][1])
 ResultsExact == pc = "done" => \A cb \in 1..NC : \A t \in 1..NT : VecExact(X[cb][t])
